@@ -34,20 +34,26 @@ Theorem ps_embed_total : forall style f b, ps_dom style f = true -> all_bytes b 
 Proof. exact FmtPS.ProofsPS2.ps_embed_total_dom. Qed.
 
 (* refusals.  The digest refuses (ordinary error) exactly for an unknown style, or — UTF-16 reading only — at a line feed byte
-   followed by a non-zero byte; embedding adds one case, a UTF-16 file ending in a lone line feed byte (patch offset past EOF).
-   Full statement "every input is either signed or refused with an error": fails, see ps_refuses_clean_refuted (panics) *)
+   followed by a non-zero byte, or when the begin line of a signature block has no previous line (or one shorter than the line break
+   the signer strips) in front of it; embedding adds one case, a UTF-16 file ending in a lone line feed byte (patch offset past EOF).
+   Full statement "every input is either signed or refused with an error": holds since relic commit 4f70e5f (ps_hashin_no_panic);
+   before it the third class was an index-out-of-range panic. *)
 Theorem ps_refuses_clean : forall style f e, ps_hashin style f = Err e ->
   (spec_style style = None /\ e = E_STYLE) \/
-  (e = E_UTF16 /\ spec_bom16 f = true /\ exists pre z r, f = pre ++ 10 :: z :: r /\ z <> 0).
+  (e = E_UTF16 /\ spec_bom16 f = true /\ exists pre z r, f = pre ++ 10 :: z :: r /\ z <> 0) \/
+  (e = E_MALFORMED /\ exists st en, spec_style style = Some (st, en) /\
+     begin_too_early (spec_bom16 f) (ps_marker (spec_bom16 f) (ps_first_of st en)) [] (fst (ps_lines (spec_bom16 f) f))).
 Proof. exact FmtPS.ProofsPS2.ps_refuses_clean. Qed.
+Theorem ps_hashin_no_panic : forall style f p, ps_hashin style f <> Panic p.
+Proof. exact FmtPS.ProofsPS2.ps_hashin_no_panic. Qed.
 Theorem ps_embed_refuses_clean : forall style f b e, ps_embed style f b = Err e ->
   ps_hashin style f = Err e \/ (e = E_COPY /\ spec_bom16 f = true /\ exists body, f = body ++ [10]).
 Proof. exact FmtPS.ProofsPS2.ps_embed_refuses_clean. Qed.
-(* witness W5: the begin line as first line of the file, or after a one-byte line: slice bound out of range in DigestPowershell *)
-Theorem ps_refuses_clean_refuted :
-  ps_hashin 1 w_block1 = Panic 1 /\ ps_embed 1 w_block1 [1] = Panic 1 /\ ps_hashin 1 (10 :: w_block1) = Panic 1
+(* witness W5: the begin line as first line of the file, or after a one-byte line: refused cleanly (third class above is inhabited) *)
+Theorem ps_begin_first_refused :
+  ps_hashin 1 w_block1 = Err E_MALFORMED /\ ps_embed 1 w_block1 [1] = Err E_MALFORMED /\ ps_hashin 1 (10 :: w_block1) = Err E_MALFORMED
   /\ ps_extract 1 w_block1 = Ok (Some [1]).
-Proof. exact FmtPS.ProofsPS2.ps_refuses_clean_refuted. Qed.
+Proof. exact FmtPS.ProofsPS2.ps_begin_first_refused. Qed.
 (* witnesses W6 / W7: a valid UTF-16LE script containing U+010A (bytes 0A 01) is refused as "malformed utf16"; a UTF-16 file
    ending in a lone 0A byte is digested (with a zero byte that is not in the file) and then cannot be patched *)
 Theorem ps_utf16_refused_refuted :
